@@ -696,8 +696,6 @@ def gen_functypes(rng, ntypes, cap):
                 chosen.append(v)
         chosen = chosen[:cap]
         for pos in POSITIONS:
-            if pos == "cond-branch" and t[0] == "tup":
-                continue     # expr_comb_cmp_and_set has no member-wise rule for tuples: not a function-type rule
             src, line, msg = type_program(t, t, pos)
             cases.append(tcase("%s.%s.base" % (group, pos), group, "base", "-", pos, "accept", src))
             for i, (kind, path, t2) in enumerate(chosen):
@@ -1889,7 +1887,11 @@ func s_bool(z : bool) -> int { 0 }
 func s_rec(z : R) -> int { 0 }
 func s_arr(z[D] : int) -> int { 0 }
 func s_fun(z(int) -> int) -> int { 0 }
-func s_chr(z : char) -> int { 0 }"""
+func s_chr(z : char) -> int { 0 }
+func s_tup(z : (int, int)) -> int { 0 }
+func s_tup2(z : (string, float)) -> int { 0 }
+func s_rng([ zf .. zt ] : range) -> int { 0 }
+func s_rng2([ zf .. zt, zg .. zu ] : range) -> int { 0 }"""
 # kind -> (type text, values, default for a var)
 BR_KINDS = {
     "int": ("int", ["1", "2", "3", "4"]),
@@ -1899,8 +1901,15 @@ BR_KINDS = {
     "arr": ("[_] : int", ["[ 1 ] : int", "[ 2, 3 ] : int", "[ 4 ] : int", "[ 5 ] : int"]),
     "fun": ("(int) -> int", ["f1", "let func (q : int) -> int { q }", "f1", "f1"]),
     "chr": ("char", ["'a'", "'b'", "'c'", "'d'"]),
+    # tuples of two component lists and ranges of two ranks: same outer kind, different type (fixes eefbe5a, 5390c54)
+    "tup": ("(int, int)", ["(1, 2) : (int, int)", "(3, 4) : (int, int)", "(5, 6) : (int, int)", "(7, 8) : (int, int)"]),
+    "tup2": ("(string, float)", ['("a", 1.5) : (string, float)', '("b", 2.5) : (string, float)', '("c", 3.5) : (string, float)',
+                                 '("d", 4.5) : (string, float)']),
+    "rng": ("[..] : range", ["[ 1 .. 2 ]", "[ 3 .. 5 ]", "[ 6 .. 6 ]", "[ 9 .. 7 ]"]),
+    "rng2": ("[.., ..] : range", ["[ 1 .. 2, 1 .. 3 ]", "[ 3 .. 5, 0 .. 1 ]", "[ 6 .. 6, 2 .. 2 ]", "[ 9 .. 7, 1 .. 0 ]"]),
 }
-BR_MSG = (r"^match guards? |^types on conditional expression do not match|^incorrect return type|^list comprehension|"
+BR_SIBLING = {"tup": "tup2", "tup2": "tup", "rng": "rng2", "rng2": "rng"}
+BR_MSG = (r"^match guards? |^ranges are different|^types on conditional expression do not match|^incorrect return type|^list comprehension|"
           r"^cannot assign different types|^function call type mismatch|^expected param |are different|do not match|"
           r"^array is not well formed|^incorrect types")
 # construct -> (expression template over arms $0 $1 $2, number of arms, names of the arm positions)
@@ -1963,7 +1972,10 @@ def gen_branch_family(rng, quick):
                 add("base", cname, "-", tk, tk, sink, body, ret, tail)
             for pi, pos in enumerate(positions):
                 others = [k for k in kinds if k != tk]
-                for uk in (others if not quick else rng.sample(others, 3)):
+                picked = others if not quick else rng.sample(others, 3)
+                if tk in BR_SIBLING and BR_SIBLING[tk] not in picked:
+                    picked = [BR_SIBLING[tk]] + picked[1:]
+                for uk in picked:
                     expr = tmpl
                     for i in range(len(positions)):
                         expr = expr.replace("$%d" % i, BR_KINDS[uk][1][i] if i == pi else vals[i])
@@ -1992,6 +2004,17 @@ def gen_branch_family(rng, quick):
                         add("mutant" if bad else "base", "listcomp-element", "element", tk, uk, sink, body, "int", "0")
                     else:
                         add("mutant" if bad else "base", "listcomp-element", "element", tk, uk, sink, [(lc, True)], "[_] : %s" % ty, None)
+    # slice := slice (expr_ass_check_type, slice branch): element type and rank of both sides must agree
+    SL = {"int": "[ 1, 2, 3 ] : int", "str": '[ "a", "b", "c" ] : string', "flt": "[ 1.5, 2.5, 3.5 ] : float",
+          # (long / double element types: param_cmp has no case for them, so even equal types are rejected -- a
+          #  completeness gap of the type checker recorded in DESIGN section 7, not an acceptance of an ill-typed program)
+          "int2": "[ [ 1, 2 ], [ 3, 4 ] ] : int"}
+    SLI = {"int2": "[0 .. 1, 0 .. 1]"}
+    for tk in SL:
+        for uk in SL:
+            body = [("let xa = %s;" % SL[tk], False), ("let ya = %s;" % SL[uk], False),
+                    ("var s = xa%s;" % SLI.get(tk, "[0 .. 1]"), False), ("s = ya%s;" % SLI.get(uk, "[1 .. 2]").replace("[1 .. 2]", "[1 .. 2]"), True)]
+            add("mutant" if tk != uk else "base", "slice-assign", "right-hand-side", tk, uk, "assign", body, "int", "0")
     return cases
 
 
